@@ -50,12 +50,13 @@ func NewDecimal(i int64, exponent int) (Decimal, error) {
 		intPart = i / int64(math.Pow10(-exponent))
 		fracPart = i % int64(math.Pow10(-exponent)) * int64(math.Pow10(4+exponent))
 	} else {
-		intPart = i * int64(math.Pow10(exponent))
-		if i > 0 && intPart < i {
+		pow := int64(math.Pow10(exponent))
+		if i > math.MaxInt64/pow {
 			return Decimal{}, fmt.Errorf("%w: value %ve%v would overflow", errDecimal, i, exponent)
-		} else if i < 0 && intPart > i {
+		} else if i < math.MinInt64/pow {
 			return Decimal{}, fmt.Errorf("%w: value %ve%v would underflow", errDecimal, i, exponent)
 		}
+		intPart = i * pow
 	}
 
 	return newDecimal(intPart, int16(fracPart))
